@@ -119,6 +119,43 @@ func (c09) Run(c core.Case, w *core.Worker) core.Result {
 		return res
 	}
 	keys := [][]byte{[]byte("a"), []byte("ab"), []byte("b"), []byte("ba"), []byte("c"), []byte("k\xff")}
+	if c.Index%2 == 1 {
+		// pre-history: the shared keys live in files that were merged and adopted through the
+		// hint file, so the concurrent phase starts on data files that Open did not scan
+		pre := core.NewRng(core.Mix(c.Seed, 77))
+		// enough live data for several merged files: only the newest merged file is rescanned
+		// at the adopting Open, the others are known through the hint file alone
+		all := append([][]byte{}, keys...)
+		for i := 0; i < 30; i++ {
+			all = append(all, []byte(fmt.Sprintf("fill%02d", i)))
+		}
+		for round := 0; round < 2; round++ {
+			for _, k := range all {
+				v := append(append([]byte{}, k...), []byte(fmt.Sprintf(":pre.%d:", round))...)
+				n := pre.Range(1500, 4500)
+				for len(v) < n {
+					v = append(v, 'p')
+				}
+				db.Put(k, v)
+			}
+		}
+		merr := db.Merge()
+		cerr := db.Close()
+		if merr == nil && cerr == nil {
+			db, err = kv.Open(cc.Cfg.Options(dir))
+			if err != nil {
+				res.Violate("reopen after the pre-history merge failed: "+err.Error(), map[string]string{"class": "open-error"}, nil)
+				return res
+			}
+			res.Add("cases_starting_on_adopted_merge", 1)
+		} else {
+			db, err = kv.Open(cc.Cfg.Options(dir))
+			if err != nil {
+				res.Violate("reopen failed: "+err.Error(), map[string]string{"class": "open-error"}, nil)
+				return res
+			}
+		}
+	}
 	base := time.Now()
 	clients := make([]*c09Client, cc.Clients)
 	var wg sync.WaitGroup
